@@ -310,15 +310,15 @@ def rx_passes(pid, tier):
         return [('pattern ASTs up to %d nodes over 9 atom pools (2-3 atoms; * + ? {0,1,2,3,10,12} group cat alt); strings<=%d over byte-class representatives; pair BFS over all 256 bytes' % (4 if q else 5, 4),
                  ['--mode', 'c03', '--K', '4' if q else '5', '--maxlen', '4'])]
     if pid == 'C04':
-        P = [('ordered term sets of size<=2 from a pool of %d term specs x inputs<=%d over {a,b,c,space,\\n,\\t,\\r,\\v,NUL} x 3 whitespace option combinations; plus a one-dimensional sweep of lexeme lengths 255..200000 for two term sets' % (12 if q else 30, 4 if q else 5),
+        P = [('ordered term sets of size<=2 from a pool of %d term specs x inputs<=%d over {a,b,c,space,\\n,\\t,\\r,\\v,\\f,NUL} x 3 whitespace option combinations; plus a one-dimensional sweep of lexeme lengths 255..200000 for two term sets' % (12 if q else 30, 4 if q else 5),
               ['--mode', 'c04', '--setsize', '2', '--pool', '0' if q else '1', '--maxlen', '4' if q else '5'])]
         if not q: P.append(('ordered term sets of size 3 from the 12-spec pool x inputs<=4', ['--mode', 'c04', '--setsize', '3', '--pool', '0', '--maxlen', '4']))
         P.append(('ordered term sets of size 4..6 from a pool of %d mutually overlapping term specs (six-slot list grammar: more terms end in one automaton state than it has slots for) x inputs<=%d over {a,b,c,space}' % (8 if q else 10, 3 if q else 4),
                   ['--mode', 'c04w', '--setsize', '6', '--pool', '0' if q else '1', '--maxlen', '3' if q else '4']))
         return P
     if pid == 'C10':
-        return [('3 term sets (single-char, multi-char, multi-line lexemes) x 2 grammars (token list; statements with an error rule) x inputs<=%d over {x,q,;,space,\\t,\\r,\\n} x 3 whitespace option combinations' % (5 if q else 8),
-                 ['--mode', 'c10', '--maxlen', '5' if q else '8'])]
+        return [('5 term sets (single-char, multi-char, multi-line lexemes, over-reading lexer) x 2 grammars (token list; statements with an error rule) x inputs<=%d over {x,q,;,space,\\t,\\r,\\n,0x80} x 3 whitespace option combinations' % (5 if q else 7),
+                 ['--mode', 'c10', '--maxlen', '5' if q else '7'])]
     if pid == 'C17':
         P = [('every string of length<=%d over a 21-symbol pattern alphabet offered as a pattern' % (4 if q else 5), ['--mode', 'c17', '--maxlen', '4' if q else '5'])]
         P.append(('every string of length<=%d over the 10-symbol set alphabet {a [ ] - ^ \\\\ 0x01 0x7f x 2}' % (6 if q else 7), ['--mode', 'c17', '--pool', '2', '--maxlen', '6' if q else '7']))
@@ -449,14 +449,14 @@ def run_progs(pid, rep, specs, deadline_s):
 
 PROG_SPECS = {
  'C19': lambda q: [dict(name='c19', src='c19_helpers.cpp', label='helper functors: all positions x arities 1..9 x value categories', flags=['-O0'])],
- 'C13': lambda q: [dict(name='c13', src='c13_context.cpp', args=[4 if q else 9], label='16 >=/>>= assignments x 10 call forms (every context_parse/parse overload) x inputs<=%d over {a,b,foreign}' % (4 if q else 9), compilers=['g++'] if q else ['g++', 'clang++'])],
+ 'C13': lambda q: [dict(name='c13', src='c13_context.cpp', args=[4 if q else 9], label='16 >=/>>= assignments x 10 call forms (every context_parse/parse overload) x inputs<=%d over {a,b,foreign}; second grammar (arities 0/1/3/5, typed term, error rule) in 10 assignments x 5 call forms incl. verbose x inputs<=%d' % (4 if q else 9, 6 if q else 7), compilers=['g++'] if q else ['g++', 'clang++'])],
  'C14': lambda q: [dict(name='c14', src='c14_values.cpp', args=[4 if q else 8], label='instrumented copyable value type, inputs<=%d over 7 bytes' % (4 if q else 8), compilers=['g++'] if q else ['g++', 'clang++']),
                    dict(name='c14n', src='c14_values.cpp', args=[4 if q else 7], flags=['-DMOVE_NOT_NOEXCEPT'], label='copyable value type whose move constructor is not noexcept, inputs<=%d' % (4 if q else 7), compilers=['g++']),
                    dict(name='c14m', src='c14_values.cpp', args=[3 if q else 7], flags=['-DMOVE_ONLY'], label='move-only value type (compile probe + run), inputs<=%d' % (3 if q else 7), compilers=['g++', 'clang++'])],
 }
 PROG_RULE = {
  'C19': 'Complete enumeration (the space is finite): _e1.._e9 x arity N..9; construct<T,I> x I<=arity<=9; push_back<C,A> and emplace_back<C,A> x all 72 ordered position pairs x every arity max(C,A)..9; val / create x arity 0..9; value categories lvalue, const lvalue, rvalue, move-only rvalue. Every other argument is a Poison object without copy, move or conversions (any use fails to compile); results are checked by type (static_assert), by address identity and by the unchanged data() pointer of the returned container. Compiled and run with g++ and clang++.',
- 'C13': 'One 4-rule grammar in all 16 assignments of >= / >>= (16 parser instantiations) x call forms covering every overload of context_parse and parse {non-const lvalue, const lvalue, prvalue, moved lvalue of a move-only type; with stream; with options+stream; parse() and parse()+stream} x every input up to the bound over {a, b, foreign byte}. Functors log rule, argument count, address/constness/value category of the context and a generation counter kept in the context; the expected call sequence is the reduction sequence of the documented driver on a reference LR(1) table.',
+ 'C13': 'One 4-rule grammar in all 16 assignments of >= / >>= (16 parser instantiations) x call forms covering every overload of context_parse and parse {non-const lvalue, const lvalue, prvalue, moved lvalue of a move-only type; with stream; with options+stream; parse() and parse()+stream} x every input up to the bound over {a, b, foreign byte}. Functors log rule, argument count, address/constness/value category of the context and a generation counter kept in the context; the expected call sequence is the reduction sequence of the documented driver on a reference LR(1) table. A second grammar with rules of 0, 1, 3 and 5 right-side symbols, a typed term (whose functor must never see the context) and an error rule runs in 10 assignments under 5 call forms (including verbose and non-default options), the expected sequence coming from the documented driver with recovery.',
  'C14': 'A grammar with nterm<V>, a typed term producing V, list building, a nullable rule, operator precedence and an error rule; V is instrumented (identity per value, copy/move/destroy counters, live set). Every input up to the bound over the 6 terminals plus a foreign byte is parsed; invariants per execution: no copies, every value destroyed exactly once, each value handed to at most one functor call, no functor sees a moved-from value, nothing alive after the call. A second build with a move-only V (copy constructor deleted) must compile and satisfy the same invariants; a third build uses a copyable V whose move constructor is not noexcept (nothing may fall back to copying).',
 }
 
@@ -626,7 +626,7 @@ def run_c17(pid, tier, rep, deadline_s):
                                    'exhaustive': all(b['completed'] for b in bounds), 'rule': 'Grammar part: run-time construction of parsers whose rules mention an undeclared symbol in every position kind must throw (compiled black-box program, g++ and clang++).'})
 
 # ----------------------------------------------------------------------------- C15: histories, schedules, TSan
-C15_RULE = 'Call alphabet of 14 calls on two parser objects (generated lexer + typed term + error rule; custom lexer): accepted, recovering, failing-at-eof, lexical-error and failing-recovery parses, a verbose parse, context_parse with a mutated context, write_diag_str. (1) Histories: every call sequence up to the depth bound runs in its own forked process on parser objects placed in read-only (mprotect) pages; after every call the bytes of the parser objects and of the program\'s .data/.bss must be unchanged and the last call must observe (result, functor log, stream text) exactly what it observes as the first call of a fresh process. (2) Schedules: for 12 pairs of calls two real threads run under a baton-passing scheduler with scheduling points in every user-supplied seam (buffer iterator dereference/increment, functor call, stream <<, custom lexer match); every schedule with at most 2 preemptions is executed (stateless depth-first enumeration by choice-sequence replay, one forked process per execution, divergence on replay is a harness error); each thread must observe its isolated result; the same for 6 triples of calls on three threads (which thread starts and which continues after one ends are enumerated as free choices, preemption bound 1 quick / 2 thorough). (3) Side condition, not the deciding step: the same bodies free-running on 3 threads under ThreadSanitizer.'
+C15_RULE = 'Call alphabet of 15 calls on two parser objects (generated lexer + typed term + error rule; custom lexer): accepted, recovering, failing-at-eof, lexical-error and failing-recovery parses, a verbose parse, context_parse with a mutated context, write_diag_str, and a re-entrant call (a functor of the running parse starts a complete second parse, with recovery, on the same parser object; absolute oracle: both observe what they observe on their own). (1) Histories: every call sequence up to the depth bound runs in its own forked process on parser objects placed in read-only (mprotect) pages; after every call the bytes of the parser objects and of the program\'s .data/.bss must be unchanged and the last call must observe (result, functor log, stream text) exactly what it observes as the first call of a fresh process. (2) Schedules: for 12 pairs of calls two real threads run under a baton-passing scheduler with scheduling points in every user-supplied seam (buffer iterator dereference/increment, functor call, stream <<, custom lexer match); every schedule with at most 2 preemptions is executed (stateless depth-first enumeration by choice-sequence replay, one forked process per execution, divergence on replay is a harness error); each thread must observe its isolated result; the same for 6 triples of calls on three threads (which thread starts and which continues after one ends are enumerated as free choices, preemption bound 1 quick / 2 thorough). (3) Side condition, not the deciding step: the same bodies free-running on 3 threads under ThreadSanitizer.'
 
 def run_c15(pid, tier, rep, deadline_s):
     q = tier == 'quick'
@@ -651,7 +651,7 @@ def run_c15(pid, tier, rep, deadline_s):
             bounds.append({'pass': 'all call sequences up to depth %d over %d calls' % (depth, res['alphabet']), 'completed': True, 'histories': res['histories']})
             samples.append({'mode': 'hist', 'result': res}); states += res['histories']; trans += res['checks']; cases += res['histories']
         bound = 2
-        nsh = 12
+        nsh = 13
         with ThreadPoolExecutor(max_workers=nsh) as ex: outs = list(ex.map(lambda k: sh([exe, 'sched', str(bound), '%d/%d' % (k, nsh)], timeout=PROG_TIMEOUT), range(nsh)))
         tot = {'schedules': 0, 'scheduling_points': 0, 'failures': 0, 'pairs': 0, 'maxp': 0}; first = ''
         ok = True
